@@ -444,6 +444,30 @@ Continuation(s) ==
   ELSE <<CompleteWorkflowM>>
 HaltContinuation(s) == IF P.parent[s] # "" THEN <<CompleteStageM(P.parent[s])>> ELSE <<CompleteWorkflowM>>
 
+(* handlers/complete_stage/split_logic.py - OR-split (WCP-6) with its paired OR-join (WCP-7).  P.split[s] maps some
+   of s's downstream stages to the value of their split condition (the evaluator itself is C20's business: the programs
+   use constant conditions); a downstream without a condition is activated, and if nothing is activated the first
+   downstream in store order is.  The activated set is recorded in the context of every OR-join stage that has an
+   activated stage among its prerequisites - one store_stage commit per OR-join, BEFORE the completion transaction. *)
+OrSplit(s)   == DOMAIN P.split[s] # {}
+SplitYes(s)  == LET D  == Downstream(s)
+                    A0 == {d \in D : d \notin DOMAIN P.split[s] \/ P.split[s][d]}
+                IN IF ~OrSplit(s) THEN D ELSE IF A0 = {} /\ D # {} THEN {InOrder(D)[1]} ELSE A0
+SplitNo(s)   == Downstream(s) \ SplitYes(s)
+(* ... of every OR-join stage the handler can SEE: it works on the partial execution retrieve_stage() builds - the stage
+   itself, its prerequisites and its synthetic children.  An OR-join below the split is never among them, so under the
+   handlers nothing is ever recorded and the OR-join falls back to its all-of rule (which still terminates, because a
+   skipped branch ends SKIPPED, a continuable status).  The recording steps are kept: they describe the code. *)
+VisibleTo(s) == {s} \cup Upstream(s) \cup Children(s)
+OrJoinsOf(s) == InOrder({j \in DOMAIN st \cap VisibleTo(s) : P.join[j] = "OR" /\ P.req[j] \cap SplitYes(s) # {}})
+SplitContinuation(s) ==
+  IF Downstream(s) # {} THEN Map(StartStageM, InOrder(SplitYes(s))) \o Map(SkipStageM, InOrder(SplitNo(s)))
+  ELSE Continuation(s)
+RecordBranches(j, s) ==
+  /\ st' = [Bump(st, j) EXCEPT ![j].act = (IF @ = {"-"} THEN {} ELSE @) \cup SplitYes(s)]
+  /\ tk' = Touch(tk, j)
+  /\ NoQueueChange
+
 StartStagePlan ==   \* second commit: planned context + tasks + first continuation + mark
   /\ wk.pc = "ss_claimed" /\ wk.sib = <<>> /\ wk.kids = <<>>
   /\ LET s == Cur.s IN
@@ -631,6 +655,17 @@ CompleteStage ==
           /\ Commit(<<CompleteStageM(P.parent[s])>>, FALSE)
           /\ SetWk("hdone") /\ Label("CompleteStageChildFailedContinue")
           /\ UNCHANGED <<wf, dlq, claims, ledger, gh, cnt>>
+     ELSE IF ds \in {"SUCCEEDED", "FAILED_CONTINUE", "SKIPPED"} /\ OrSplit(s) /\ wk.out # "rec" /\ OrJoinsOf(s) # <<>>
+     THEN \* _record_activated_branches: first OR-join (the rest follow, one commit each, before anything else)
+          /\ RecordBranches(Head(OrJoinsOf(s)), s)
+          /\ wk' = [wk EXCEPT !.out = "rec", !.sib = Tail(OrJoinsOf(s))]
+          /\ Label("CompleteStageRecordBranches")
+          /\ UNCHANGED <<wf, dlq, claims, ledger, gh, cnt>>
+     ELSE IF ds \in {"SUCCEEDED", "FAILED_CONTINUE", "SKIPPED"} /\ wk.out = "rec" /\ wk.sib # <<>>
+     THEN /\ RecordBranches(Head(wk.sib), s)
+          /\ wk' = [wk EXCEPT !.sib = Tail(@)]
+          /\ Label("CompleteStageRecordBranches")
+          /\ UNCHANGED <<wf, dlq, claims, ledger, gh, cnt>>
      ELSE IF ds \in {"SUCCEEDED", "FAILED_CONTINUE", "SKIPPED"} /\ ToTrack(s) # {}
      THEN \* join tracking: one own-commit store_stage per first-of / quorum downstream
           LET d == CHOOSE x \in ToTrack(s) : \A y \in ToTrack(s) : IdxStage(x) <= IdxStage(y) IN
@@ -642,7 +677,7 @@ CompleteStage ==
      ELSE IF ds \in {"SUCCEEDED", "FAILED_CONTINUE", "SKIPPED"}
      THEN /\ st' = [Bump(st, s) EXCEPT ![s].status = ds]
           /\ tk' = Touch(tk, s)
-          /\ Commit(Continuation(s), TRUE)
+          /\ Commit(SplitContinuation(s), TRUE)
           /\ SetWk("hdone") /\ Label("CompleteStage")
           /\ UNCHANGED <<wf, dlq, claims, ledger, gh, cnt>>
      ELSE \* halting (or suspended / paused) status: cancel own remnants, finish the workflow / parent; NO mark
